@@ -379,7 +379,7 @@ fn nat(n: u8) -> RationalSemiring {
     r
 }
 
-fn lattice_laws<T: JoinSemilattice + MeetSemilattice + BBSemiring + PartialEq + Debug + Copy>(
+fn lattice_laws<T: JoinSemilattice + MeetSemilattice + BBSemiring + rsdd::util::semirings::BBRing + PartialEq + Debug + Copy>(
     name: &str,
     a: T,
     b: T,
@@ -408,6 +408,8 @@ fn lattice_laws<T: JoinSemilattice + MeetSemilattice + BBSemiring + PartialEq + 
             law!(x.join(&y), y, "join-returns-larger");
             law!(BBSemiring::choose(&x, &y), y, "choose-returns-larger");
             law!(BBSemiring::choose(&y, &x), y, "choose-returns-larger");
+            law!(rsdd::util::semirings::BBRing::choose(&x, &y), y, "ring-choose-returns-larger");
+            law!(rsdd::util::semirings::BBRing::choose(&y, &x), y, "ring-choose-returns-larger");
             law!(x.meet(&y), x, "meet-returns-smaller");
         }
     }
@@ -544,7 +546,18 @@ fn poly_ff_laws<const P: u128>(case: &PolyCase) -> CaseResult {
     semiring_laws(&format!("polynomial-over-GF({})", P), a, b, c, &eq, true)?;
     let m = a * b;
     let want = ref_mul(&case.a, &case.b);
+    let sum = a + b;
+    let wants = ref_add(&case.a, &case.b);
     for i in 0..MAX_COEFFS {
+        let ws = if wants[i] >= 0 { wants[i] as u128 % P } else { (P - ((-wants[i]) as u128 % P)) % P };
+        ensure!(
+            sum.coefficients[i].value() == ws,
+            format!("C13/polynomial-over-GF({}):add-reference", P),
+            "coefficient {} of the sum is {} but the reference gives {}",
+            i,
+            sum.coefficients[i].value(),
+            ws
+        );
         let w = if want[i] >= 0 { want[i] as u128 % P } else { (P - ((-want[i]) as u128 % P)) % P };
         ensure!(
             m.coefficients[i].value() == w,
